@@ -52,7 +52,7 @@ Record state := {
   rxset : bool;
   evset : list eid;
   replies : list (eid * msg);
-  out : list eid;
+  out : list eid;            (* requests the peer has received and not answered yet (also of callers that timed out) *)
   cs : list cpc;
   tx : tpc;
   rx : rpc;
@@ -252,7 +252,7 @@ Definition tx_step (s : state) : state :=
   | TPark e => tx_loop_top (set_pending s (pending s ++ [e]))
   | TSend e =>
       if closed_local s then set_tx s TDead
-      else tx_loop_top (if caller_done s e then s else set_out s (out s ++ [e]))
+      else tx_loop_top (set_out s (out s ++ [e]))     (* the peer has the request now *)
   | TDisc d => if d_enabled s d then let '(s1, d1) := dstep s d in set_tx s1 (TDisc d1) else s
   | TDead => s
   end.
@@ -309,8 +309,10 @@ Definition user_step (s : state) : state :=
   end.
 
 (* ---------------------------------------------------------------- callers: request() after connect() *)
+(* request() returns.  The request stays outstanding at the peer (`out`): a reply that arrives after the caller
+   timed out (late reply) is received and matched by the rx thread like any other reply *)
 Definition finish (s : state) (i : nat) (o : outcome) : state :=
-  set_out (set_cs s (set_nth i (CDone o) (cs s))) (remove_id i (out s)).
+  set_cs s (set_nth i (CDone o) (cs s)).
 
 Definition caller_step (s : state) (i : nat) (a : arg) : state :=
   match nth_error (cs s) i with
